@@ -33,11 +33,12 @@ var HostileText = []string{
 	"a \"quoted\" word", "back\\slash", "line one\nline two", "triple \"\"\" inside", "ends with quote\"", "\"starts with quote", "ends with backslash\\",
 	"unicode é ü 😀 ℵ", "tab\there", "  leading blanks", "trailing blanks  ", "\\n literal backslash-n", "a\n\nb (blank line)", "# not a comment",
 	"\\\"", "\"\"", "\"\"\"\"", "five \"\"\"\"\" quotes", "\"\\", "q\"\\x", "\\\\", "quotes \"\"\" and ünï 😀 code", "é\"\"\"\"", "mixed \"q\" and \\ and \n newline", "\\u0041", "€uro", "ctl \x01 char", "\r\ncrlf",
+	"esc \x1b[31m red", "unit \x1f sep", "\x10\x11", "bell \x07 and del \x7f",
 	"  \"padded\" and quoted  ", " \"x\"", "quote at the end \" ", "\t\\ tab, backslash, blanks  ",
 }
 
 // hostileAtoms are glued together into descriptions and string values nobody wrote by hand.
-var hostileAtoms = []string{"\"", "\"\"", "\"\"\"", "\"\"\"\"", "\\", "\\\\", "\n", " ", "é", "😀", "a", "word", "#", "\t", "\r\n", "\\n", "\\u0041", "\x01", "ß", "\\\"", "{", "}", "@", "$"}
+var hostileAtoms = []string{"\"", "\"\"", "\"\"\"", "\"\"\"\"", "\\", "\\\\", "\n", " ", "é", "😀", "a", "word", "#", "\t", "\r\n", "\\n", "\\u0041", "\x01", "\x1b", "\x1f", "\x10", "ß", "\\\"", "{", "}", "@", "$"}
 
 func composeHostile(t *rapid.T, label string) string {
 	n := rapid.IntRange(2, 5).Draw(t, label+"n")
